@@ -365,6 +365,7 @@ def run(repo: Repo, ctx, grammar_modules=None, rule_prefix='C01',
     detached_operand_rule(repo, ctx, gen, 'C01.R10')
     # ---- R11 clause order follows the grammar -----------------------------------
     clause_order_rule(repo, ctx, gen, 'C01.R11')
+    identifier_field_rule(repo, ctx, gen, gm, 'C01.R12')
 
     # ---- R4 (shared with C18) --------------------------------------------------
     from . import c18
@@ -414,6 +415,30 @@ def run(repo: Repo, ctx, grammar_modules=None, rule_prefix='C01',
                         for w in re.findall(r'[A-Za-z_]+', p):
                             words.setdefault(w.lower(),
                                              f'{f.module.rel()}:{c.lineno}')
+    idf = identifier_fields(repo, gm)
+    # only literal text goes through the keyword writer: it folds the case
+    # of everything it is given, so node data (a name) would be case-folded
+    for f in gen.methods.values():
+        for c in ast.walk(f.node):
+            if isinstance(c, ast.Call) and norm(c.func) == \
+                    'self._write_keywords':
+                data = []
+                for a in c.args:
+                    for x in ast.walk(a):
+                        if isinstance(x, ast.Attribute) and isinstance(
+                                x.value, ast.Name) and x.value.id == 'node' \
+                                and _field_kind(repo, gen, f, x.attr, idf) \
+                                in ('identifier', 'node'):
+                            data.append(f'node.{x.attr}')
+                if data:
+                    ctx.ob('C01.R5', f'{f.name}:keyword-writer-gets-data',
+                           False,
+                           f'{f.name} hands {data} to _write_keywords, which '
+                           f'upper/lower-cases its arguments: a '
+                           f'case-sensitive name is printed in a different '
+                           f'case (`beforeImport` -> `beforeimport`) and two '
+                           f'names that differ only in case print alike',
+                           f'{f.module.rel()}:{c.lineno}')
     for w, loc in sorted(words.items()):
         ok = w in kws or w in allowed_nonkw
         ctx.ob('C01.R5', f'keyword={w}', ok,
@@ -1058,3 +1083,133 @@ def clause_order_rule(repo: Repo, ctx, gen, rule: str) -> None:
            'EXTENDING first, so `create role r if not exists extending a` '
            'is rejected by the parser', co.loc,
            sample='after_name() precedes IF NOT EXISTS')
+
+
+IDENT_SYMBOLS = {'Identifier', 'PtrIdentifier', 'AnyIdentifier', 'IDENT'}
+
+
+def identifier_fields(repo: Repo, gm) -> Dict[Tuple[str, str], str]:
+    """(qlast class, field) -> reduction, for fields a reduction fills with
+    the text of an identifier token (`kids[i].val` where the i-th symbol of
+    the production is Identifier / PtrIdentifier / AnyIdentifier).  The
+    lexer has already removed the backticks, so the value is the bare name
+    and may contain anything a quoted identifier may contain."""
+    out: Dict[Tuple[str, str], str] = {}
+    for mn in gm:
+        m = repo.modules.get(mn)
+        if m is None:
+            continue
+        for cls in [c for c in ast.walk(m.tree)
+                    if isinstance(c, ast.ClassDef)]:
+            for fn in cls.body:
+                if not (isinstance(fn, ast.FunctionDef)
+                        and fn.name.startswith('reduce_')):
+                    continue
+                syms = fn.name[len('reduce_'):].split('_')
+                pos = [x.arg for x in fn.args.args[1:]]
+                var = fn.args.vararg.arg if fn.args.vararg else None
+
+                def sym_of(e):
+                    if isinstance(e, ast.Attribute) and e.attr in (
+                            'val', 'clean_value'):
+                        b = e.value
+                        if isinstance(b, ast.Subscript) and isinstance(
+                                b.value, ast.Name) and b.value.id == var \
+                                and isinstance(b.slice, ast.Constant) and \
+                                isinstance(b.slice.value, int):
+                            i = b.slice.value
+                            return syms[i] if -len(syms) <= i < len(syms) \
+                                else None
+                        if isinstance(b, ast.Name) and b.id in pos:
+                            i = pos.index(b.id)
+                            return syms[i] if i < len(syms) else None
+                    return None
+                for c in ast.walk(fn):
+                    if isinstance(c, ast.Call) and dotted(c.func) and \
+                            dotted(c.func).startswith('qlast.'):
+                        k = dotted(c.func).split('.', 1)[1]
+                        for kw in c.keywords:
+                            if kw.arg and sym_of(kw.value) in IDENT_SYMBOLS:
+                                out.setdefault((k, kw.arg),
+                                               f'{cls.name}.{fn.name}')
+    return out
+
+
+def _field_kind(repo: Repo, gen, f, fld: str, idf) -> str:
+    """'identifier' (identifier token text), 'node' (an AST node object),
+    'enum' or 'other' for field `fld` of the class visitor `f` prints"""
+    cls = f.name[len('visit_'):] if f.name.startswith('visit_') else None
+    if cls is None:
+        return 'other'
+    if (cls, fld) in idf:
+        return 'identifier'
+    q = f'{QLAST}.{cls}'
+    if q not in repo.classes:
+        return 'other'
+    fields = repo.class_fields(q)
+    if fld not in fields:
+        return 'other'
+    ann = fields[fld][1].annotation
+    names = [dotted(x) for x in ast.walk(ann)
+             if isinstance(x, (ast.Name, ast.Attribute))]
+    for d in names:
+        if not d:
+            continue
+        r = repo.resolve(repo.modules[QLAST], d)
+        if r in repo.classes:
+            mro = repo.mro(r)
+            if any(b.endswith('Enum') or b.endswith('.StrEnum')
+                   for b in mro):
+                return 'enum'
+            if f'{QLAST}.Base' in mro:
+                return 'node'
+    return 'other'
+
+
+def identifier_field_rule(repo: Repo, ctx, gen, gm, rule: str) -> None:
+    """A field that holds the text of an identifier token is written through
+    an identifier-quoting function (ident_to_str / quote_ident /
+    param_to_str): the parser accepts a back-quoted name with spaces,
+    keywords or upper-case letters there, and the bare text does not
+    re-parse (or re-parses as something else)."""
+    idf = identifier_fields(repo, gm)
+    if len(idf) < 5:
+        raise AnalysisError(f'{rule}: only {len(idf)} identifier-valued '
+                            f'fields found in the grammar')
+    ctx.floor(rule, 5)
+    for (cls, fld), red in sorted(idf.items()):
+        f = gen.methods.get(f'visit_{cls}')
+        if f is None:
+            continue
+        ctx.saw(f)
+        p = f.params()[1] if len(f.params()) > 1 else 'node'
+        raw = []
+        for c in ast.walk(f.node):
+            if not (isinstance(c, ast.Call) and norm(c.func) in (
+                    'self.write', 'self._write_keywords')):
+                continue
+            for a in c.args:
+                # uses of node.<fld> in this argument that are not inside a
+                # call of a quoting function
+                def scan(e, quoted):
+                    if isinstance(e, ast.Call):
+                        q = quoted or any(
+                            w in norm(e.func).lower()
+                            for w in ('ident_to_str', 'quote', 'param_to_str',
+                                      'escape'))
+                        for x in list(e.args) + [k.value for k in e.keywords]:
+                            scan(x, q)
+                        return
+                    if isinstance(e, ast.Attribute) and e.attr == fld and \
+                            norm(e.value) == p and not quoted:
+                        raw.append(c.lineno)
+                    for x in ast.iter_child_nodes(e):
+                        scan(x, quoted)
+                scan(a, False)
+        ctx.ob(rule, f'visit_{cls}:{fld}-quoted', not raw,
+               f'{cls}.{fld} holds the text of an identifier token (set in '
+               f'{red}) but visit_{cls} writes it as it is: a name that '
+               f'needs back-quotes (`my sp`, a reserved word, ...) is '
+               f'printed bare and the text is rejected or read differently',
+               f'{f.module.rel()}:{raw[0] if raw else f.node.lineno}',
+               sample=f'ident_to_str(node.{fld})')
